@@ -564,6 +564,44 @@ theorem entry_safe {κ} (D : Data κ) (h0 : Nat → κ) (E : Entry) (hE : E ∈ 
       obtain ⟨h', h1, h2, h3, h4, _⟩ := soundness D _ c' h0 ps (init_wf _ _) hx
       exact ⟨ps, c', h', rfl, h1, h2, h3, h4⟩
 
+theorem retCallerCheck_ok (c : Ctl) : ∀ (l : List (Nat × Val)), c.retCallerCheck l = .ok () →
+    ∀ x v, (x, v) ∈ l → c.own v.reg ≠ .caller := by
+  intro l
+  induction l with
+  | nil => intro _ x v hm; cases hm
+  | cons a l ih =>
+    intro hc x v hm
+    obtain ⟨x', v'⟩ := a
+    simp only [Ctl.retCallerCheck] at hc
+    split at hc
+    · cases hc
+    · rename_i hn
+      simp only [List.mem_cons, Prod.mk.injEq] at hm
+      rcases hm with ⟨rfl, rfl⟩ | hm
+      · exact hn
+      · exact ih hc x v hm
+
+/-- **outputs are copies**: a public (`strict`) entry point that is accepted hands out nothing that lies in
+memory of the caller either — every output is in a region the call itself allocated, or a read-only view of
+internal storage. (Internal helpers such as `validate_batch` and the transforms pass the caller's arrays on by
+design and are not `strict`.) -/
+theorem public_outputs_not_caller (E : Entry) (hs : E.strict = true) (bits : List Bool) (c : Ctl)
+    (h : E.check bits = .ok c) : ∀ x v, (x, v) ∈ c.rets → c.own v.reg ≠ .caller := by
+  simp only [Entry.check] at h
+  split at h
+  · cases h
+  · split at h
+    · cases h
+    · rename_i c1 _
+      rw [hs] at h
+      simp only [if_true] at h
+      split at h
+      · cases h
+      · rename_i hchk
+        cases h
+        intro x v hm
+        exact retCallerCheck_ok c _ hchk x v (by simpa using hm)
+
 /-! ### negative examples: the current defective code and the listed mutants are rejected -/
 
 theorem rejected_D7 : nD7.holds = true := by decide +kernel
@@ -585,13 +623,14 @@ theorem rejected_D36 : nD36.holds = true := by decide +kernel
 theorem rejected_ObjAsStored : nObjAsStored.holds = true := by decide +kernel
 theorem rejected_BestFromBatch : nBestFromBatch.holds = true := by decide +kernel
 theorem rejected_TellDqdKeepsSolution : nTellDqdKeepsSolution.holds = true := by decide +kernel
+theorem rejected_CqdNoCopy : nCqdNoCopy.holds = true := by decide +kernel
 
 theorem negatives_rejected : ∀ n, n ∈ negatives → n.E.verdict n.bits = some n.why := by
   intro n hn
   simp only [negatives, List.mem_cons, List.not_mem_nil, or_false] at hn
   have key : ∀ m : Neg, m.holds = true → m.E.verdict m.bits = some m.why := by
     intro m hm; simpa [Neg.holds] using hm
-  rcases hn with rfl | rfl | rfl | rfl | rfl | rfl | rfl | rfl | rfl | rfl | rfl | rfl | rfl | rfl | rfl | rfl | rfl | rfl | rfl
+  rcases hn with rfl | rfl | rfl | rfl | rfl | rfl | rfl | rfl | rfl | rfl | rfl | rfl | rfl | rfl | rfl | rfl | rfl | rfl | rfl | rfl
   · exact key _ rejected_D7
   · exact key _ rejected_D10
   · exact key _ rejected_D10b
@@ -611,6 +650,7 @@ theorem negatives_rejected : ∀ n, n ∈ negatives → n.E.verdict n.bits = som
   · exact key _ rejected_ObjAsStored
   · exact key _ rejected_BestFromBatch
   · exact key _ rejected_TellDqdKeepsSolution
+  · exact key _ rejected_CqdNoCopy
 
 /-- seeded C12-7: handing out entries of object fields "as stored" is fine for numeric fields' copies and
 rejected exactly in the object-field branch. -/
@@ -631,7 +671,7 @@ theorem nonvacuous :
     (match eAdd.check [false, false, false, false, false, true] with
      | .ok c => decide (c.own 0 = .caller ∧ c.env 10 = some ⟨0, true⟩ ∧ c.stored.length = 2 ∧
                         c.rets.length = 2 ∧ c.own 65 = .internal ∧ c.own 33 = .fresh)
-     | .error _ => false) = true ∧ entries.length = 40 ∧ negatives.length = 19 := by
+     | .error _ => false) = true ∧ entries.length = 40 ∧ negatives.length = 20 := by
   decide +kernel
 
 /-! ## T12.3 all read paths present the same rows in the same order -/
